@@ -4,6 +4,7 @@ set -euo pipefail
 cd "$(dirname "$0")/.."
 export CARGO_NET_OFFLINE=true
 ( cd tools/mirfacts && cargo build --release --offline -q )
+( cd tools/rxlang && cargo build --release --offline -q )
 [ -x tools/mirfacts/target/release/mirfacts ]
 mkdir -p .cache evidence
 echo "setup ok"
